@@ -8,3 +8,4 @@ CONSTANTS
   Emit = TRUE
 INVARIANT TableOK
 INVARIANT EmitOK
+INVARIANT EmitLarge
